@@ -153,6 +153,10 @@ def cases(tier, seed):
             i += 1
     # interleave so that shards get a similar mix (GP cases are the expensive ones)
     random.Random(seed * 31 + 1).shuffle(out)
+    # ---- ENGINE B HOOK ---------------------------------------------------------------------------
+    # Engine B of DESIGN (real Tuner.run with a failing backend, max_failures 0-5, external stops) is
+    # built separately. Its builder appends case specs carrying "engine": "B" here and dispatches them
+    # at the top of run_case(); every spec generated by this module is an engine-A spec (no "engine" key).
     return out
 
 
@@ -1291,6 +1295,7 @@ def _adapter(o, p, spec):
 
 
 def run_case(spec):
+    # ENGINE B HOOK: specs with spec.get("engine") == "B" are to be dispatched here (none are generated yet)
     o = Obs()
     p = expand(spec)
     label = kind_label(spec["kind"], p["searcher"] if spec["kind"] != "msr" else None)
